@@ -1,6 +1,7 @@
 /- lemmas for C01: scatter/gather bookkeeping, sender loop, receiver state machine -/
 import NngModel.Model.SpStream
 import NngModel.Proofs.BytesLemmas
+import NngModel.Generated.C01
 namespace Nng.Sp
 open Nng
 
